@@ -172,6 +172,14 @@ fixed("F18c", "C18", "289765c",
        "f": {"start": "S", "sig": {"A": [], "B": ["n"], "S": ["n"]},
              "prods": [["S", {"n": "u"}, [["T", "a"], ["T", "a"]]], ["A", {}, [["T", "a"], ["T", "a"]]],
                        ["S", {"n": "u"}, [["T", "a"], ["V", "B", {"n": "u"}]]], ["B", {"n": "v"}, [["T", "b"]]]]}})
+fixed("F18d", "C18", "71b8879",
+      "FeatureStructure.subsumes ignored shared values: the chart state of A[n=?z,p=?z] suppressed the more general one of A[n=?w,p=?k], "
+      "so S -> A[n=?x,p=?y] B[n=?x] B[n=?y] rejected the member 'a b a' under about half of the hash seeds",
+      {"kind": "fcfg", "alternatives": False, "how": "text",
+       "f": {"start": "S", "sig": {"A": ["n", "p"], "B": ["n"], "S": []},
+             "prods": [["S", {}, [["V", "A", {"n": "?x", "p": "?y"}], ["V", "B", {"n": "?x"}], ["V", "B", {"n": "?y"}]]],
+                       ["A", {"n": "?z", "p": "?z"}, [["T", "a"]]], ["A", {"n": "?w", "p": "?k"}, [["T", "a"]]],
+                       ["B", {"n": "u"}, [["T", "b"]]], ["B", {"n": "v"}, [["T", "a"]]]]}}, hashseed="2")
 # ------------------------------------------------------------------ C20
 fixed("F20a", "C20", "2e12088",
       "PDA.from_networkx skipped nodes named starting_*: the real state starting_q lost its transitions",
@@ -204,6 +212,9 @@ fixed("F07a", "C07", "c1c66b9",
 fixed("F07b", "C07", "beb320f",
       "PythonRegex negated sets removed ^ from the complement: [^a] rejected '^'",
       pat("[^a]", ["^", "a", "b", ""], ["negset"]))
+fixed("F07i", "C07", "ae75e06",
+      "PythonRegex negated sets did not match the newline ([^a] rejected a newline, which Python matches)",
+      pat("[^a]b*", ["\n", "\nb", "a", "b", "c"], ["negset", "*"]))
 fixed("F07c", "C07", "d2eb25d",
       "PythonRegex kept the special meaning of . and $ inside sets: [.] accepted any character, [$] the empty string",
       pat("[.]|[$]x", ["a", ".", "$x", "x", ""], ["set", "set_meta_literal", "alt"]))
